@@ -170,6 +170,108 @@ func main() {
 			capGuard = "false"
 		}
 	}
+	// ---- four more guard shapes known to the model (Model/Monetary.v config); anything else is outside the fragment
+	parseFunc := func(rel, recv, name string) (*token.FileSet, *ast.FuncDecl) {
+		fset := token.NewFileSet()
+		f, err := parser.ParseFile(fset, filepath.Join(*repo, rel), nil, 0)
+		if err != nil {
+			errs = append(errs, "parse "+rel+": "+err.Error())
+			return fset, nil
+		}
+		for _, decl := range f.Decls {
+			fd, ok := decl.(*ast.FuncDecl)
+			if !ok || fd.Name.Name != name || fd.Body == nil {
+				continue
+			}
+			r := ""
+			if fd.Recv != nil && len(fd.Recv.List) == 1 {
+				r = strings.TrimPrefix(text(fset, fd.Recv.List[0].Type), "*")
+			}
+			if r == recv {
+				return fset, fd
+			}
+		}
+		errs = append(errs, fmt.Sprintf("%s: function %s.%s not found", rel, recv, name))
+		return fset, nil
+	}
+	// statements of a function body as normalised source text, debug prints dropped
+	stmts := func(fset *token.FileSet, fd *ast.FuncDecl) []string {
+		var xs []string
+		for _, st := range fd.Body.List {
+			t := text(fset, st)
+			if strings.HasPrefix(t, "fmt.Println(") {
+				continue
+			}
+			xs = append(xs, t)
+		}
+		return xs
+	}
+	pick := func(what, got string, shapes map[string]string) string {
+		if v, ok := shapes[got]; ok {
+			return v
+		}
+		errs = append(errs, what+" outside the fragment: "+got)
+		return "false"
+	}
+	ubiExact, ubiAmount, ubiDue, mintRefused := "false", "false", "false", "false"
+	if fset, fd := parseFunc("x/ubi/proposal_handler.go", "ApplyUpsertUBIProposalHandler", "Apply"); fd != nil {
+		// everything before the record is stored (the stored record itself is observed by the differential run)
+		var head []string
+		for _, t := range stmts(fset, fd) {
+			if strings.HasPrefix(t, "a.keeper.SetUBIRecord(") {
+				break
+			}
+			head = append(head, t)
+		}
+		ubiExact = pick("ubi upsert handler", strings.Join(head, " ;; "), map[string]string{
+			"p := proposal.(*ubitypes.UpsertUBIProposal) ;; spendingPool := a.sk.GetSpendingPool(ctx, p.Pool) ;; if spendingPool == nil { return ubitypes.ErrSpendingPoolDoesNotExist } ;; yearSeconds := uint64(31556952) ;; hardcap := a.gk.GetNetworkProperties(ctx).UbiHardcap ;; allRecords := a.keeper.GetUBIRecords(ctx) ;; ubiSum := uint64(0) ;; for _, record := range allRecords { ubiSum += record.Amount * yearSeconds / record.Period } ;; if ubiSum+p.Amount*yearSeconds/p.Period > hardcap { return ubitypes.ErrUbiSumOverflowsHardcap }": "false",
+			"p := proposal.(*ubitypes.UpsertUBIProposal) ;; spendingPool := a.sk.GetSpendingPool(ctx, p.Pool) ;; if spendingPool == nil { return ubitypes.ErrSpendingPoolDoesNotExist } ;; if p.Period == 0 { return ubitypes.ErrUbiSumOverflowsHardcap } ;; yearSeconds := sdk.NewInt(31556952) ;; hardcap := sdk.NewIntFromUint64(a.gk.GetNetworkProperties(ctx).UbiHardcap) ;; allRecords := a.keeper.GetUBIRecords(ctx) ;; ubiSum := sdk.ZeroInt() ;; for _, record := range allRecords { ubiSum = ubiSum.Add(sdk.NewIntFromUint64(record.Amount).Mul(yearSeconds).Quo(sdk.NewIntFromUint64(record.Period))) } ;; if ubiSum.Add(sdk.NewIntFromUint64(p.Amount).Mul(yearSeconds).Quo(sdk.NewIntFromUint64(p.Period))).GT(hardcap) { return ubitypes.ErrUbiSumOverflowsHardcap }": "true",
+		})
+	}
+	if fset, fd := parseFunc("x/ubi/keeper/ubi.go", "Keeper", "ProcessUBIRecord"); fd != nil {
+		got := ""
+		for _, t := range stmts(fset, fd) {
+			if strings.HasPrefix(t, "amount := ") {
+				got = t
+			}
+		}
+		ubiAmount = pick("ubi payout amount", got, map[string]string{
+			"amount := sdk.NewInt(int64(record.Amount)).Mul(sdk.NewInt(1000_000))":     "false",
+			"amount := sdk.NewIntFromUint64(record.Amount).Mul(sdk.NewInt(1000_000))": "true",
+		})
+	}
+	{
+		fset := token.NewFileSet()
+		f, err := parser.ParseFile(fset, filepath.Join(*repo, "x/ubi/abci.go"), nil, 0)
+		if err != nil {
+			errs = append(errs, "parse x/ubi/abci.go: "+err.Error())
+		} else {
+			var conds []string
+			ast.Inspect(f, func(n ast.Node) bool {
+				if is, ok := n.(*ast.IfStmt); ok && strings.Contains(text(fset, is.Cond), "record.Period") {
+					conds = append(conds, text(fset, is.Cond))
+				}
+				return true
+			})
+			ubiDue = pick("ubi due test", strings.Join(conds, " ;; "), map[string]string{
+				"currUnixTimestamp > record.DistributionLast+record.Period && (record.DistributionEnd == 0 || record.DistributionLast < record.DistributionEnd)":                                                          "false",
+				"currUnixTimestamp > record.DistributionLast && currUnixTimestamp-record.DistributionLast > record.Period && (record.DistributionEnd == 0 || record.DistributionLast < record.DistributionEnd)": "true",
+			})
+		}
+	}
+	if fset, fd := parseFunc("x/layer2/keeper/msg_server.go", "msgServer", "MintIssueTx"); fd != nil {
+		var head []string
+		for _, t := range stmts(fset, fd) {
+			if strings.HasPrefix(t, "tokenInfo := ") {
+				break
+			}
+			head = append(head, t)
+		}
+		mintRefused = pick("layer2 MintIssueTx prologue", strings.Join(head, " ;; "), map[string]string{
+			"ctx := sdk.UnwrapSDKContext(goCtx) ;; sender := sdk.MustAccAddressFromBech32(msg.Sender)": "false",
+			"ctx := sdk.UnwrapSDKContext(goCtx) ;; sender := sdk.MustAccAddressFromBech32(msg.Sender) ;; if msg.Denom == k.keeper.DefaultDenom(ctx) { return nil, types.ErrBondDenomNotMintable }": "true",
+		})
+	}
 	sort.SliceStable(sites, func(i, j int) bool {
 		a, b := sites[i], sites[j]
 		if a.pkg != b.pkg {
@@ -197,6 +299,8 @@ func main() {
 	}
 	b.WriteString("].\n\n(* x/tokens/keeper/msg_server.go UpsertTokenInfo: does the cap guard refuse every non-positive new cap? *)\n")
 	b.WriteString("Definition cap_guard_strict : bool := " + capGuard + ".\n")
+	b.WriteString("(* guard shapes of this tree: cap guard, ubi hard-cap arithmetic, ubi payout amount, ubi due test, MintIssueTx bond-denom refusal *)\n")
+	b.WriteString("Definition tree_config : config := mkConfig cap_guard_strict " + ubiExact + " " + ubiAmount + " " + ubiDue + " " + mintRefused + ".\n")
 	b.WriteString("\nDefinition mint_burn_gen_errors : list string := [")
 	for i, e := range errs {
 		if i > 0 {
